@@ -68,7 +68,7 @@ GAddPeer(p) == /\ p \in gone /\ gone' = gone \ {p}
 Targets == {{p} : p \in Peers} \cup {Peers}
 TName(T) == IF T = Peers THEN "all" ELSE CHOOSE p \in T : TRUE
 (* the per-path policy rejA is drawn more often: it is the one that separates the paths of a prefix *)
-PolSeq == <<"acc", "rejx1", "medx1", "ppx1", "rejA", "rejA", "rejA">>
+PolSeq == <<"acc", "rejx1", "medx1", "ppx1", "rejA", "rejA", "rejA", "cm1x1", "cm2x1", "cm1x1", "cm2x1">>
 RandomPol == PolSeq[RandomElement(1..Len(PolSeq))]
 GSetImp    == LET pol == RandomPol IN
                 PSetImp(pol) /\ Log([ev |-> "SetImp", pol |-> pol]) /\ UNCHANGED <<stalled, held, gone>>
